@@ -380,6 +380,35 @@ func TestVfC13(t *testing.T) {
 			r.Hit("refused_then_served_same_session")
 			e.vfQuiesce()
 		}
+		// a root session on 'sys': attach, give up J, attach again without naming a mode
+		{
+			cr := e.dial("directed-root")
+			cr.hi(false)
+			if f := cr.loginToken(fuzzers[2].tok); f != nil && f.code() == 200 {
+				cdSave := cd
+				_ = cdSave
+				rsend := func(kind string, body map[string]any) {
+					id := cr.nextID()
+					body["id"] = id
+					msg := map[string]any{kind: body}
+					raw := vfJSON(msg)
+					cr.mu.Lock()
+					cr.sends = append(cr.sends, vfSend{T: e.now(), Id: id, Msg: msg, Raw: raw})
+					cr.mu.Unlock()
+					cr.sendRaw([]byte(raw))
+					sent = append(sent, c13Sent{client: cr, id: id, kind: kind, raw: raw})
+				}
+				rsend("sub", map[string]any{"topic": "sys"})
+				rsend("set", map[string]any{"topic": "sys", "sub": map[string]any{"mode": "N"}})
+				rsend("leave", map[string]any{"topic": "sys"})
+				rsend("sub", map[string]any{"topic": "sys"})
+				rsend("set", map[string]any{"topic": "sys", "sub": map[string]any{"mode": "RWPD"}})
+				rsend("sub", map[string]any{"topic": "sys"})
+				rsend("get", map[string]any{"topic": "sys", "what": "desc sub"})
+				r.Hit("root_on_sys_rejoins")
+				e.vfQuiesce()
+			}
+		}
 		// a handshake refused for its version leaves the connection without a handshake: whatever follows is out
 		// of sequence and must be answered with an error
 		cx := e.dial("directed-oldver")
